@@ -391,6 +391,31 @@ def check_sign2():
                 if not cmp("sign2.genk >1 applications: standard (counter i continues)", k_lib, k_std,
                            l=l, q=hex(q), d=d, H=H, t=t, apps=apps, k_reset_variant=hex(k_rst)):
                     cmp("sign2.genk >1 applications: counter restarted per application", k_lib, k_rst, l=l, apps=apps_r)
+    # bignIdSign2 uses the same one-time key generation (on the identity private key e)
+    for l in LEVELS:
+        n = bign.no_of(l)
+        for it in range(int(8 * SCALE)):
+            P = bign.std_params(l)
+            P["q"] = 2 ** (2 * l - 1) + 2 * rnd.randrange(2 ** 64) + 1
+            q = P["q"]
+            e_ = rnd.randrange(0, q)
+            H = i2o(rnd.randrange(q), n)
+            H0 = rnd.randbytes(n)
+            x.reset()
+            so = x.out(n // 2 + n)
+            err = call("bignIdSign2", so, pbuf(P), x.buf(OID), len(OID), x.buf(H0), x.buf(H), x.buf(i2o(e_, n)), None, 0)
+            if err != "ERR_OK":
+                issue("idsign2.genk_iterations", l=l, lib=err, q=hex(q))
+                continue
+            sig = so.read()
+            k_lib = (bign.o2i(sig[l // 8:]) + (bign.o2i(sig[:l // 8]) + 2 ** l) * e_ + bign.o2i(H)) % q
+            k_std, apps = bign.genk(P, OID, e_, H, None)
+            k_rst, apps_r = bign.genk(P, OID, e_, H, None, reset_counter=True)
+            if apps == 1:
+                cmp("idsign2.genk 1 application", k_lib, k_std, l=l)
+            elif not cmp("idsign2.genk >1 applications: standard (counter i continues)", k_lib, k_std,
+                         l=l, q=hex(q), e=e_, H=H, apps=apps, k_reset_variant=hex(k_rst)):
+                cmp("idsign2.genk >1 applications: counter restarted per application", k_lib, k_rst, l=l, apps=apps_r)
     # same for bign96 (belt-32block, counter continues according to bign96.c)
     for it in range(int(12 * SCALE)):
         P = bign.std_params(96)
@@ -754,7 +779,7 @@ def check_custom_params():
     2^(2l) - c, so the library picks another field arithmetic), random a, G = (0, yG), b = yG^2.
     The true group order is unknown, so q is just an odd 2l-bit number: the functions below use q
     only for range checks / arithmetic mod q, and (q G = O is never needed) the model applies."""
-    for l in LEVELS:
+    for l in LEVELS + (96,):
         n = bign.no_of(l)
         for it in range(int(3 * SCALE) + 1):
             while True:
@@ -775,20 +800,20 @@ def check_custom_params():
                 Qo = bign.point_to_octets(P, Q)
                 x.reset()
                 out = x.out(2 * n)
-                e = call("bignPubkeyCalc", out, pbuf(P), x.buf(i2o(d, n)))
+                e = call(F(l, "PubkeyCalc"), out, pbuf(P), x.buf(i2o(d, n)))
                 cmp("custom_p.pubkey_calc", (e, out.read()), ("ERR_OK", Qo), l=l, p=p, d=d)
-                cmp("custom_p.pubkey_val", call("bignPubkeyVal", pbuf(P), x.buf(Qo)), "ERR_OK", l=l, p=p)
-                cmp("custom_p.keypair_val(d, dG)", call("bignKeypairVal", pbuf(P), x.buf(i2o(d, n)), x.buf(Qo)), "ERR_OK",
+                cmp("custom_p.pubkey_val", call(F(l, "PubkeyVal"), pbuf(P), x.buf(Qo)), "ERR_OK", l=l, p=p)
+                cmp("custom_p.keypair_val(d, dG)", call(F(l, "KeypairVal"), pbuf(P), x.buf(i2o(d, n)), x.buf(Qo)), "ERR_OK",
                     l=l, p=hex(p), a=hex(P["a"]), yG=hex(yG), q=hex(q), d=hex(d), Q=Qo)
                 # KeypairGen output fed to KeypairVal
                 t = x.tape(i2o(d, n))
                 priv, pub = x.out(n), x.out(2 * n)
-                e = call("bignKeypairGen", priv, pub, pbuf(P), GEN, t)
+                e = call(F(l, "KeypairGen"), priv, pub, pbuf(P), GEN, t)
                 if d < p:
                     cmp("custom_p.keypair_gen", (e, priv.read(), pub.read()), ("ERR_OK", i2o(d, n), Qo), l=l)
                 d2 = rnd.randrange(1, q)
                 S = E.mul(d2, Q)
-                if S is not None:
+                if S is not None and l != 96:
                     ko = x.out(2 * n)
                     e = call("bignDH", ko, pbuf(P), x.buf(i2o(d2, n)), x.buf(Qo), 2 * n)
                     cmp("custom_p.dh", (e, ko.read()), ("ERR_OK", bign.point_to_octets(P, S)), l=l)
@@ -797,15 +822,15 @@ def check_custom_params():
                 k = rnd.randrange(1, q)
                 if E.mul(k, bign.base(P)) is None:
                     continue
-                sig = bign.sign(P, OID, H, d, k)
+                sig = bign.sign(P, OID, H, d, k, top_bit(l))
                 t = x.tape(i2o(k, n))
                 so = x.out(len(sig))
-                e = call("bignSign", so, pbuf(P), x.buf(OID), len(OID), x.buf(H), x.buf(i2o(d, n)), GEN, t)
+                e = call(F(l, "Sign"), so, pbuf(P), x.buf(OID), len(OID), x.buf(H), x.buf(i2o(d, n)), GEN, t)
                 cmp("custom_p.sign", (e, so.read()), ("ERR_OK", sig), l=l)
                 # verification: R = ((S1 + H) mod q) G + (S0 + 2^l) Q computed by the definition
                 # (it is != kG here because q is not the group order: the verdict is what counts)
-                want = bign.verify_code(P, OID, H, sig, Qo)
-                e = call("bignVerify", pbuf(P), x.buf(OID), len(OID), x.buf(H), x.buf(sig), x.buf(Qo))
+                want = bign.verify_code(P, OID, H, sig, Qo, top_bit(l))
+                e = call(F(l, "Verify"), pbuf(P), x.buf(OID), len(OID), x.buf(H), x.buf(sig), x.buf(Qo))
                 cmp("custom_p.verify", e, want, l=l)
 
 
@@ -817,10 +842,10 @@ def report():
         bad = len(issues.get(cat, []))
         print("%-70s %6d checks %s" % (cat, counts[cat], ("%d MISMATCH" % bad) if bad else "ok"))
     if issues:
-        print("\n==== mismatches (first 3 per category)")
+        print("\n==== mismatches (first XCHECK_SHOW=3 per category)")
         for cat in sorted(issues):
             print("--- %s: %d" % (cat, len(issues[cat])))
-            for it in issues[cat][:3]:
+            for it in issues[cat][:int(os.environ.get("XCHECK_SHOW", "3"))]:
                 print("    " + ", ".join("%s=%s" % (k, v) for k, v in it.items()))
 
 
